@@ -53,6 +53,12 @@ func (promOpaque) callMethod(in *Interp, name string, args []Value, res *types.T
 	if res.Len() == 0 {
 		return nil
 	}
+	if res.Len() == 1 {
+		if _, isI := res.At(0).Type().Underlying().(*types.Interface); isI {
+			// e.g. ObserverVec.WithLabelValues: another opaque collector
+			return Iface{t: types.Typ[types.UnsafePointer], v: promOpaque{}}
+		}
+	}
 	return in.zero(res)
 }
 
